@@ -57,6 +57,19 @@ CLAIMS.update({
    design="3/C12"),
 })
 
+CLAIMS.update({
+ 'C08': dict(
+   text="Exhaustive enumeration (X3) on the T2 topology (real endpoint, either role, against a scripted raw peer): in each of 32 stream/connection states the endpoint receives every frame of a systematic catalogue (type 0..10 x flag sets x declared/actual lengths incl. max+1 x stream ids incl. reserved bit x payload fills; ~54k executions quick, full product thorough), also under write back-pressure and with concurrent application calls (respond, send_data, reserve/release capacity, reset, drop), every sequence of 2 (quick) / 3 (thorough) events of the C09 catalogue (~200k), and handshakes / first frames cut at every offset, fed bytewise, and garbage prefaces. Oracle: no panic (incl. teardown), quiescence within 300 polls, self-wake run <= 8, polls + transport callbacks bounded linearly in the input, orderly outcome.",
+   note="Deterministic work counters instead of clocks. HPACK/Huffman byte space is C11's; longer sequences and other payload contents not covered.",
+   tech="exhaustive enumeration of (state x input) catalogues and byte chunkings against the real endpoint with a robustness oracle",
+   design="3/C08"),
+ 'C09': dict(
+   text="Exhaustive enumeration (X3) of (state x event) pairs on T2: 32 states per the stream life cycle in both roles (idle, open, half-closed either way, closed, locally reset remembered / forgotten, remotely reset, header block in progress, GOAWAY sent / received, reserved local / remote, request parked behind MAX_CONCURRENT_STREAMS, SETTINGS in flight, refused, push disabled) x ~78 events (1-4 raw frames: every type on the primary / an idle peer / an idle own stream / stream 0, size defects, flow-control overflows, header-block interleavings, padding, unknown types/flags/settings, push promises incl. empty fragment and promise-then-HEADERS). A reference classification computed from the wire history alone by RFC 9113 rules decides: connection error => GOAWAY with code; stream error => RST_STREAM or GOAWAY and a follow-up exchange completes; legal => no penalty, content delivered, follow-up completes; nothing of an illegal frame surfaces.",
+   note="Error codes are not compared. MAY/SHOULD and 7540/9113 differences are 'unspecified'. Reference classifier in c09.rs is hand-written from the RFC.",
+   tech="exhaustive enumeration of a state x event product against a reference protocol automaton",
+   design="3/C09"),
+})
+
 NOT_YET = "check not built yet (work in progress; DESIGN.md section 3 describes the planned harness)"
 NA = {}
 
